@@ -4,6 +4,7 @@ package main
 // An entry is "fresh only" when every write to that heap in the region goes to a cell allocated in the region.
 
 import (
+	"strings"
 	"go/types"
 
 	"golang.org/x/tools/go/ssa"
@@ -198,6 +199,10 @@ func (eng *Engine) callMods(fn *ssa.Function, c *ssa.CallCommon, region map[*ssa
 	if c.IsInvoke() {
 		if c.Method.Name() == "Write" && typeKey(c.Value.Type()) == "hash.Hash" {
 			m.ghost["hashL"] = true
+			return
+		}
+		if c.Method.Name() == "Next" && strings.HasSuffix(typeKey(c.Value.Type()), "journal.GtfsrtSource") {
+			m.ghost["srcrem"] = true
 			return
 		}
 		impls := eng.implementations(c.Value.Type(), c.Method)
